@@ -34,6 +34,7 @@ type gen struct {
 	curPkg     *Pkg
 	curTypes   []*TypeDecl
 	curEarlier []*Pkg
+	consumer   bool        // the package being generated declares no annotations of its own
 	inXTest    bool        // generating the external test package: the own package is an import
 	sibling    func() Stmt // draws one more simple site for the current body (set by genBody)
 }
@@ -177,6 +178,11 @@ func (g *gen) genPkg(pkg *Pkg, earlier []*Pkg) {
 		kept := append([]*Pkg{}, earlier[:drop]...)
 		earlier = append(kept, earlier[drop+1:]...)
 	}
+	// a pure consumer: a package without annotations of its own (everything it can
+	// violate is declared by the packages it imports)
+	g.consumer = len(earlier) >= 1 && g.chance("consumerPkg", 12)
+	pkg.Consumer = g.consumer
+	defer func() { g.consumer = false }()
 	// ---- types
 	nTypes := rapid.IntRange(1, 3).Draw(t, "ntypes")
 	var types []*TypeDecl
@@ -231,6 +237,26 @@ func (g *gen) genPkg(pkg *Pkg, earlier []*Pkg) {
 			}
 			types = append(types, ct)
 			decls = g.add(decls, ct)
+		}
+	}
+	// ---- type D T: a defined type built from a struct type of this package; it has
+	// T's fields (the very same field objects) but its own annotations
+	if g.chance("definedFrom", 25) {
+		var bases []*TypeDecl
+		for _, t := range types {
+			if t.Kind == KStruct && t.DefOf == nil && !t.TestOnly && len(writableBasics(t)) > 0 {
+				bases = append(bases, t)
+			}
+		}
+		if len(bases) > 0 {
+			b := bases[g.pick("definedFromBase", len(bases))]
+			dt := &TypeDecl{ID: g.p.NewID(), Pkg: pkg, Kind: KStruct, Name: fmt.Sprintf("D%s_%d", strings.ToUpper(b.Name[:1])+b.Name[1:], len(types)), DefOf: b}
+			for _, f := range writableBasics(b) {
+				dt.Fields = append(dt.Fields, &Field{Name: f.Name, Basic: f.Basic})
+			}
+			g.annotate(dt)
+			types = append(types, dt)
+			decls = g.add(decls, dt)
 		}
 	}
 	// ---- interfaces and @implements (same-named interfaces of different
@@ -364,6 +390,25 @@ func (g *gen) genPkg(pkg *Pkg, earlier []*Pkg) {
 			}
 			funcs = append(funcs, fd)
 			decls = g.add(decls, fd)
+		}
+		// fluent methods: callers chain them, x.W0().W1() - two references that
+		// begin at the same position
+		if td.Kind == KStruct && g.chance("fluentMethods", 20) {
+			for i := 0; i < 2; i++ {
+				fd := &FuncDecl{ID: g.p.NewID(), Name: fmt.Sprintf("W%d", i), Pkg: pkg, Fluent: true, done: true}
+				fd.Recv = &Var{Name: "r", Ref: &TypeRef{Type: td, Ptr: true}, ID: fd.ID}
+				fd.Results = []*TypeRef{{Type: td, Ptr: true}}
+				fd.ResultIDs = []int{g.p.NewID()}
+				fd.RetVar = fd.Recv
+				if !g.consumer && g.has("tonl") && g.chance("fnTestOnly", 35) {
+					fd.TestOnly = true
+				}
+				if !g.consumer && g.has("pkgo") && g.chance("fnPkgOnly", 50) {
+					fd.PackageOnly = g.allowLists()
+				}
+				funcs = append(funcs, fd)
+				decls = g.add(decls, fd)
+			}
 		}
 	}
 	for _, td := range types {
@@ -633,6 +678,17 @@ func (g *gen) add(decls []Decl, d Decl) []Decl {
 	return append(decls, d)
 }
 
+// writableBasics: the plainly typed fields of t that carry no @mutable.
+func writableBasics(t *TypeDecl) []*Field {
+	var out []*Field
+	for _, f := range t.Fields {
+		if f.Type == nil && !f.Mutable && !f.Embedded {
+			out = append(out, f)
+		}
+	}
+	return out
+}
+
 func isCtorOrAnnotated(fd *FuncDecl, types []*TypeDecl) bool {
 	if fd.TestOnly || fd.PackageOnly != nil || fd.called {
 		return true
@@ -763,7 +819,7 @@ var wraps = []string{"[]", "map[string]", "chan ", "[2]", "..."}
 var docPrefixes = []string{"//", "//  ", "//\t", "// \t "}
 
 func (g *gen) annotate(td *TypeDecl) {
-	if g.chance("plainType", 12) {
+	if g.consumer || g.chance("plainType", 12) {
 		return // no annotation at all
 	}
 	if g.chance("docPrefix", 15) {
@@ -774,7 +830,10 @@ func (g *gen) annotate(td *TypeDecl) {
 	}
 	if g.has("ctor") && g.chance("hasCtor", 65) || (g.o.Focus == "imm" && g.chance("immCtor", 50)) {
 		n := rapid.IntRange(1, 3).Draw(g.t, "nctors")
-		names := []string{"New" + td.Name, "Mk" + td.Name, "Missing" + td.Name}
+		if g.chance("manyCtors", 20) {
+			n = rapid.IntRange(4, 5).Draw(g.t, "nctorsMany")
+		}
+		names := []string{"New" + td.Name, "Mk" + td.Name, "Missing" + td.Name, "Build" + td.Name, "NewFrom" + td.Name}
 		td.Constructors = names[:n]
 		// spellings accepted by the grammar
 		switch g.pick("ctorSpelling", 6) {
@@ -959,10 +1018,10 @@ func (g *gen) genFunc(pkg *Pkg, recvType *TypeDecl, name string, own []*TypeDecl
 	if g.chance("fnDocPrefix", 15) {
 		fd.DocPrefix = docPrefixes[g.pick("docPrefixIdx", len(docPrefixes))]
 	}
-	if !g.inXTest && g.has("tonl") && g.chance("fnTestOnly", 35) {
+	if !g.inXTest && !g.consumer && g.has("tonl") && g.chance("fnTestOnly", 35) {
 		fd.TestOnly = true
 	}
-	if !g.inXTest && g.has("pkgo") && g.chance("fnPkgOnly", 35) {
+	if !g.inXTest && !g.consumer && g.has("pkgo") && g.chance("fnPkgOnly", 35) {
 		fd.PackageOnly = g.allowLists()
 	}
 	fd.Body = g.genBody(sc, pkg, own, earlier, 0, true)
@@ -1459,11 +1518,32 @@ func (g *gen) callFamily(sc *scope, pkg *Pkg, td *TypeDecl, own []*TypeDecl, ear
 		return &Site{ID: g.p.NewID(), Kind: kind, Fn: fd, Inst: fd.Generic && g.chance("explicitInstance", 50), ParenCallee: kind == "call" && g.chance("parenCallee", 12)}
 	case k < 85 && len(ms) > 0:
 		fd := ms[g.pick("method", len(ms))]
+		var fluent []*FuncDecl
+		for _, m := range ms {
+			if m.Fluent {
+				fluent = append(fluent, m)
+			}
+		}
+		if len(fluent) > 0 && g.chance("preferFluent", 35) {
+			fd = fluent[g.pick("fluentIdx", len(fluent))]
+		}
 		fd.called = true
 		rt := fd.Recv.Ref.Type
 		o := sc.operand(rt, fd.Recv.IsPtr(), true)
 		kk := g.pick("mkind", 100)
 		s := &Site{ID: g.p.NewID(), Fn: fd, Opnd: o, Type: rt, Ref: &TypeRef{Type: rt}}
+		if fd.Fluent && g.chance("chain", 70) {
+			var next []*FuncDecl
+			for _, m := range ms {
+				if m.Fluent && m.Recv.Ref.Type == rt {
+					next = append(next, m)
+				}
+			}
+			s.Kind, s.Type, s.Ref = "mcall.chain", nil, nil
+			s.Fn2 = next[g.pick("chainNext", len(next))]
+			s.Fn2.called = true
+			return s
+		}
 		switch {
 		case kk < 60:
 			s.Kind = "mcall"
